@@ -5230,6 +5230,9 @@ class RemoteBranch(branch.Branch, _RpcHelper, lock._RelockDebugMixin):
         too, in fact doing so might harm performance.
         """
         super()._clear_cached_state()
+        # The tags are part of that state: e.g. _real_branch.pull() merges the
+        # source's tags into the tags file behind our back.
+        self._tags_bytes = None
 
     @property
     def control_files(self):
